@@ -5,7 +5,7 @@ passes with it, the demo exits 1 with it and 0 without.  Writes meta.json with w
 import json, os, shutil, subprocess, sys
 VERIF = os.path.dirname(os.path.dirname(os.path.abspath(__file__)))
 prop, k, name, needs = sys.argv[1], sys.argv[2], sys.argv[3], sys.argv[4]
-src = "/tmp/seed/%s-out" % prop
+src = os.path.join(os.environ.get("SEED_SRC", "/tmp/seed"), "%s-out" % prop)
 d = os.path.join(VERIF, "seeded", name)
 os.makedirs(d, exist_ok=True)
 shutil.copy(os.path.join(src, "patch%s.diff" % k), os.path.join(d, "patch.diff"))
